@@ -74,6 +74,7 @@ Definition k_print := 12%N.
 Definition k_image_data := 13%N.
 Definition k_source_item := 14%N.
 Definition k_effect_eq := 15%N.
+Definition k_partial_iter := 16%N.
 
 (* declared write set of a query kind, as location classes *)
 Definition declared (k : N) : list lclass :=
@@ -82,7 +83,7 @@ Definition declared (k : N) : list lclass :=
   else if N.eqb k k_image_data then [c_imgcache]
   else if N.eqb k k_scene_objects || N.eqb k k_node_objects || N.eqb k k_shapes
           || N.eqb k k_polygon_triangles || N.eqb k k_bound_item || N.eqb k k_unbound_item
-          || N.eqb k k_input_list then [c_fresh]
+          || N.eqb k k_input_list || N.eqb k k_partial_iter then [c_fresh]
   else [].
 
 Definition in_classes (c : lclass) (cs : list lclass) : bool := existsb (N.eqb c) cs.
